@@ -125,3 +125,12 @@ claim(
     "after delivery exactly when they contain a consumed owned leaf; a drop-counting leaf shows delivered <= 1.",
     trusted=["racing threads are outside (Kani has no threads; std Mutex trusted)", "the compile-time half (Clone demanded by the type state) is rustc's obligation"],
 )
+
+claim(
+    "C17",
+    "Contracts [K-full per container x leaf kind, K-bnd for Vec]: for symbolic v, output(into_return(v)) and output(into_return_once(v)) "
+    "are structurally equal to v - same variant (Ok/Err, Some/None, Ready/Pending), same element order and count, same leaf values, "
+    "tuple slots not transposed; borrowed leaves are produced on every call and are stable; owned leaves are single-use exactly on the "
+    "single-use path.",
+    trusted=["generalisation from u8/i8 leaves to all T is parametricity of the generic impls", "the macro's syntactic choice of output kind (unimock_macros/src/unimock/output.rs) is outside"],
+)
